@@ -54,7 +54,9 @@ def cases(draw):
         "temperature": draw(st.sampled_from([0.0, 0.01, 0.5, 2.0])),
         "seed": draw(st.integers(0, 999)),
         "max_repeats": draw(st.integers(1, 8)),
-        "via": draw(st.sampled_from(["finder", "finder", "slice", "reslice", "finder_reuse", "finder_override"])),
+        "via": draw(st.sampled_from(["finder", "finder", "slice", "reslice", "finder_reuse", "finder_override", "finder_info"])),
+        # after the search also ask the finder for its k best candidates
+        "best_k": draw(st.sampled_from([0, 0, 1, 2, 3, 5])),
         # for finder_reuse: an earlier query with other targets on the SAME finder
         "first_targets": draw(
             st.fixed_dictionaries(
@@ -143,14 +145,33 @@ def run_case(spec, sub=None):
             full.update(kw)
             return sf.search(spec["max_repeats"], **full)
 
-    if spec["via"] in ("finder", "finder_reuse", "finder_override"):
+    finder_box = {}
+    via_info = spec["via"] == "finder_info"
+    if via_info:
+        # the other documented entry point: a finder built from an
+        # opt_einsum.PathInfo of the same path (no prior slicing there)
+        import opt_einsum as oe
+
+        if pre or any(ord(ix) > 127 for ix in sizes) or not sizes:
+            via_info = False
+        else:
+            eq = ",".join("".join(t) for t in inputs) + "->" + "".join(output)
+            shp = [tuple(sizes[ix] for ix in t) for t in inputs]
+            try:
+                _, info = oe.contract_path(eq, *shp, shapes=True, optimize=[tuple(p_) for p_ in spec["path"]])
+            except Exception:
+                via_info = False
+        if via_info:
+            cls.append("from_pathinfo")
+
+    if spec["via"] in ("finder", "finder_reuse", "finder_override", "finder_info"):
         _override = search if spec["via"] == "finder_override" else None
 
         def search():
             if _override is not None:
                 return _override()
             sf = ctg.slicer.SliceFinder(
-                tree, allow_outer=spec["allow_outer"], minimize=spec["minimize"],
+                info if via_info else tree, allow_outer=spec["allow_outer"], minimize=spec["minimize"],
                 temperature=spec["temperature"], seed=spec["seed"], **kw,
             )
             if spec["via"] == "finder_reuse":
@@ -172,11 +193,63 @@ def run_case(spec, sub=None):
                 return sf.search(spec["max_repeats"], **kw)
             return sf.search(spec["max_repeats"])
 
-        ok, res = guarded(search)
+        _SF = ctg.slicer.SliceFinder
+
+        class _Capture(_SF):
+            def __init__(self, *a, **k):
+                super().__init__(*a, **k)
+                finder_box["sf"] = self
+
+        ctg.slicer.SliceFinder = _Capture
+        try:
+            ok, res = guarded(search)
+        finally:
+            ctg.slicer.SliceFinder = _SF
         if not ok:
             return no_answer(res)
         ix_sl, cost = res
         ix_sl = sorted(ix_sl)
+        # the k best candidates: each must keep the finder's promises too
+        if spec.get("best_k") and "sf" in finder_box:
+            # (the targets in force are those of the last search call)
+            eff = dict(kw) if spec["via"] != "finder" and spec["via"] != "finder_info" else {}
+            okk, cands = guarded(finder_box["sf"].best, k=spec["best_k"], **eff)
+            if okk:
+                cls.append("best_k")
+                for cix, ccost in cands:
+                    cix = sorted(cix)
+                    t3 = tree.copy()
+                    good = True
+                    for ix in cix:
+                        okr, r = guarded(t3.remove_ind_, ix)
+                        if not okr:
+                            viol.append(f"best(k): returned label {ix!r} cannot be sliced: {r}")
+                            good = False
+                            break
+                    if not good:
+                        break
+                    pred = (ccost.size, ccost.total_flops * old_mult, ccost.nslices * old_mult)
+                    real = (t3.max_size(), t3.total_flops(), t3.nslices)
+                    if pred != real:
+                        viol.append(f"best(k={spec['best_k']}): predicted {pred} for {cix}, the tree sliced on them has {real}")
+                        break
+                    if "target_size" in kw and t3.max_size() > kw["target_size"]:
+                        viol.append(f"best(k={spec['best_k']}): candidate {cix} has max_size {t3.max_size()} > target_size {kw['target_size']}")
+                        break
+                    if "target_slices" in kw and t3.nslices < kw["target_slices"] * old_mult:
+                        viol.append(f"best(k={spec['best_k']}): candidate {cix} has nslices {t3.nslices} < target_slices {kw['target_slices']} (x{old_mult} prior)")
+                        break
+                    if "target_overhead" in kw and t3.total_flops() / tree.total_flops() > kw["target_overhead"] * (1 + 1e-12):
+                        viol.append(f"best(k={spec['best_k']}): candidate {cix} has overhead {t3.total_flops() / tree.total_flops()} > target_overhead {kw['target_overhead']}")
+                        break
+                    if spec["allow_outer"] is False and any(ix in output for ix in cix):
+                        viol.append(f"best(k): output label in candidate {cix} although allow_outer=False")
+                        break
+                    if spec["allow_outer"] == "only" and any(ix not in output for ix in cix):
+                        viol.append(f"best(k): inner label in candidate {cix} although allow_outer='only'")
+                        break
+            if viol:
+                return Outcome(viol, False, cls)
         t2 = tree.copy()
         for ix in ix_sl:
             ok, r = guarded(t2.remove_ind_, ix)
